@@ -136,10 +136,12 @@ where
   }
 
   pub fn finalize(&self) {
-    self.unscribers.read().unwrap().iter().for_each(|x| {
+    // take the registered upstreams out in one step: an upstream registered by
+    // another thread meanwhile must not be dropped from the map unswept
+    let unscribers = std::mem::take(&mut *self.unscribers.write().unwrap());
+    unscribers.iter().for_each(|x| {
       x.1.call(());
     });
-    self.unscribers.write().unwrap().clear();
     // also after a terminal: releases the subscriber's remaining callbacks and
     // cuts the subscriber -> teardown -> controller -> subscriber cycle
     self.subscriber.unsubscribe();
